@@ -597,7 +597,7 @@ Proof. repeat split; vm_compute; reflexivity. Qed.
 (* ------------------------------------------------------------------ EPUB *)
 Definition epub_mk (T : list (list (list str))) (tb : list (list str)) (r c : list str) (it ic : bool)
   : epub_state :=
-  {| es_skip := 0; es_tables := T; es_table := tb; es_row := r; es_cell := c;
+  {| es_skip := 0; es_skip_tag := []; es_tables := T; es_table := tb; es_row := r; es_cell := c;
      es_in_table := it; es_in_cell := ic; es_in_title := false |}.
 
 Definition epub_cell_events (t : str) : list event := [EvStart H_TD; EvData t; EvEnd H_TD].
